@@ -2,7 +2,10 @@ import os, subprocess, json, re
 
 
 def build(ctx):
-    wd = os.path.join(ctx.here, ".work", "replay-crate")
+    import hashlib
+    key = hashlib.sha1(os.path.abspath(ctx.repo).encode()).hexdigest()[:8]
+    # one crate directory per repository path: checks of different trees may run side by side
+    wd = os.path.join(ctx.here, ".work", "replay-crate-" + key)
     os.makedirs(wd, exist_ok=True)
     src = os.path.join(ctx.here, "replay")
     toml = open(os.path.join(src, "Cargo.toml.in")).read().replace("@REPO@", os.path.abspath(ctx.repo)).replace("@SRC@", os.path.join(src, "src"))
@@ -11,8 +14,7 @@ def build(ctx):
     if os.path.exists(lock) and not os.path.exists(os.path.join(wd, "Cargo.lock")):
         import shutil
         shutil.copy(lock, os.path.join(wd, "Cargo.lock"))
-    import hashlib
-    tdir = os.path.join(ctx.here, ".work", "replay-target-" + hashlib.sha1(os.path.abspath(ctx.repo).encode()).hexdigest()[:8])
+    tdir = os.path.join(ctx.here, ".work", "replay-target-" + key)
     env = dict(os.environ, CARGO_NET_OFFLINE="true", CARGO_TARGET_DIR=tdir)
     p = subprocess.run(["cargo", "build", "--offline"], cwd=wd, env=env, capture_output=True, text=True, timeout=1800)
     if p.returncode != 0:
